@@ -4,6 +4,8 @@
 -/
 import Mashu.Wire
 import Mashu.Tz
+import Mashu.ToDict
+import Mashu.Generated
 open Lean
 
 namespace Mashu
@@ -48,6 +50,52 @@ def dispatchCore (op : String) (j : Json) : Except String Json := do
   if r1.compress == r2.compress then pure r1
   else pure (Json.mkObj [("inconclusive", Json.bool true), ("strict", r1), ("lenient", r2)])
 
+def opt3 (j : Json) : ToDict.Opt3 :=
+  match j with
+  | .bool b => some b
+  | _ => none
+
+def toSources (j : Json) : ToDict.Sources :=
+  { callDialect := opt3 (j.getObjValD "callDialect"), configDialect := opt3 (j.getObjValD "configDialect"),
+    config := opt3 (j.getObjValD "config"), defaultDialect := opt3 (j.getObjValD "defaultDialect") }
+
+def ofKVs (kvs : List (String × V)) : Json :=
+  .arr (kvs.map (fun kv => Json.arr #[Json.str kv.1, ofV kv.2])).toArray
+
+/-- C08: the generated to_dict (implementation model) and its specification -/
+def dispatchToDict (j : Json) : Except String Json := do
+  let order := Mashu.Generated.optionLookupOrder
+  let sOn := toSources (j.getObjValD "omit_none")
+  let sOd := toSources (j.getObjValD "omit_default")
+  let sBa := toSources (j.getObjValD "serialize_by_alias")
+  let passed : ToDict.Passed := { omitNone := opt3 (j.getObjValD "kw_omit_none"), byAlias := opt3 (j.getObjValD "kw_by_alias") }
+  let b : ToDict.Build :=
+    { omitNone := ToDict.resolve order sOn, omitDefault := ToDict.resolve order sOd, sba := ToDict.resolve order sBa,
+      omitNoneFeature := getB j "omit_none_flag", byAliasFeature := getB j "by_alias_flag", sortKeys := getB j "sort_keys" }
+  let fvs ← (← arr (j.getObjValD "fields")).toList.mapM (fun f => do
+    let name ← str (f.getObjValD "name")
+    let alias : Option String := match f.getObjValD "alias" with | .str s => some s | _ => none
+    let dflt ← optV (f.getObjValD "default")
+    let fs : ToDict.FieldS := { name := name, alias := alias, nullable := getB f "nullable", identPacker := getB f "ident",
+                                default := dflt, skip := getB f "skip" }
+    let fv : ToDict.FieldV := { raw := (← toV (f.getObjValD "raw")), packed := (← toV (f.getObjValD "packed")) }
+    pure (fs, fv))
+  let eqT ← (match j.getObjVal? "eq" with
+    | .ok c => do
+        (← arr c).toList.mapM (fun e => do
+          let e ← arr e
+          pure ((← toV e[0]!), (← toV e[1]!), (← bool e[2]!)))
+    | .error _ => pure [])
+  let eq : ToDict.PyEq := fun a b =>
+    match eqT.find? (fun e => e.1 == a && e.2.1 == b) with
+    | some e => e.2.2
+    | none => a == b
+  let viaDialect := getB j "via_call_dialect"
+  let kwImpl := if viaDialect then ToDict.forwardedKw order sOn sBa passed else ToDict.specKw order sOn sBa passed
+  let kwSpec := ToDict.specKw order sOn sBa passed
+  pure (Json.mkObj [("impl", ofKVs (ToDict.toDictImpl eq b kwImpl fvs)),
+                    ("spec", ofKVs (ToDict.project eq (ToDict.effective b kwSpec) fvs))])
+
 def dispatch (j : Json) : Except String Json := do
   let op ← str (j.getObjValD "op")
   match op with
@@ -57,6 +105,7 @@ def dispatch (j : Json) : Except String Json := do
       | some m => pure (Json.mkObj [("minutes", Json.num (Lean.JsonNumber.fromInt m))])
       | none => pure (Json.mkObj [("minutes", Json.null)])
   | "pack" | "unpack" | "roundtrip" | "conf" => dispatchCore op j
+  | "todict" => dispatchToDict j
   | _ => throw s!"unknown op {op}"
 
 end Mashu
